@@ -40,6 +40,7 @@ def main():
     ap.add_argument("--tier", default="quick")
     ap.add_argument("--needs", default="")
     ap.add_argument("--skip-confirm", action="store_true")
+    ap.add_argument("--scratch", action="store_true")
     a = ap.parse_args()
     out = os.path.join(VERIF, "seeded", a.seed)
     os.makedirs(out, exist_ok=True)
@@ -81,21 +82,39 @@ def main():
                              and " passed" in meta["suite_with_change"] and "failed" not in meta["suite_with_change"])
         print("confirm: unchanged=%r with-change=%r suite=%r -> confirmed=%r" % (
             meta["demo_exit_unchanged"], meta["demo_exit_with_change"], meta["suite_with_change"], meta["confirmed"]))
-    # run the check against /repo with the change applied
-    st = sh(["git", "-C", "/repo", "status", "--porcelain", "--untracked-files=no"]).stdout.strip()
-    assert st == "", "/repo has uncommitted changes: " + st
-    r = sh(["git", "-C", "/repo", "apply", patch])
-    assert r.returncode == 0, r.stderr
-    try:
-        rc = sh([os.path.join(VERIF, "check"), a.prop, "--tier", a.tier, "--no-evidence"], timeout=14400)
-    finally:
-        sh(["git", "-C", "/repo", "checkout", "--", "."])
+    if a.scratch:
+        # run the check against a scratch worktree of /repo HEAD with the change applied (VERIF_REPO), so that other
+        # runs reading /repo at the same time are not disturbed
+        wt2 = tempfile.mkdtemp(prefix="esv-seedrun-")
+        os.rmdir(wt2)
+        r = sh(["git", "-C", "/repo", "worktree", "add", "--detach", wt2, "HEAD", "-q"])
+        assert r.returncode == 0, r.stderr
+        try:
+            r = sh(["git", "-C", wt2, "apply", patch])
+            assert r.returncode == 0, r.stderr
+            rc = sh([os.path.join(VERIF, "check"), a.prop, "--tier", a.tier, "--no-evidence"], timeout=14400,
+                    env=dict(os.environ, VERIF_REPO=wt2))
+        finally:
+            sh(["git", "-C", "/repo", "worktree", "remove", "--force", wt2])
+            shutil.rmtree(wt2, ignore_errors=True)
+        how = "scratch worktree of /repo HEAD + git apply patch.diff; VERIF_REPO=<worktree> ./check %s --tier %s" % (a.prop, a.tier)
+    else:
+        # run the check against /repo with the change applied
+        st = sh(["git", "-C", "/repo", "status", "--porcelain", "--untracked-files=no"]).stdout.strip()
+        assert st == "", "/repo has uncommitted changes: " + st
+        r = sh(["git", "-C", "/repo", "apply", patch])
+        assert r.returncode == 0, r.stderr
+        try:
+            rc = sh([os.path.join(VERIF, "check"), a.prop, "--tier", a.tier, "--no-evidence"], timeout=14400)
+        finally:
+            sh(["git", "-C", "/repo", "checkout", "--", "."])
+        how = "git -C /repo apply patch.diff; ./check %s --tier %s" % (a.prop, a.tier)
     first = [l for l in rc.stdout.split("\n") if l.startswith("  [")][:3]
     last = [l for l in rc.stdout.strip().split("\n") if l][-1:]
     meta["check_%s_exit" % a.tier] = rc.returncode
     meta["check_%s_first_lines" % a.tier] = first or last
     meta["caught_by"] = ("./check %s --tier %s" % (a.prop, a.tier)) if rc.returncode == 1 else meta.get("caught_by")
-    meta["ran"].append("git -C /repo apply patch.diff; ./check %s --tier %s (exit %d); git -C /repo checkout -- ." % (a.prop, a.tier, rc.returncode))
+    meta["ran"].append("%s (exit %d)%s" % (how, rc.returncode, "" if a.scratch else "; git -C /repo checkout -- ."))
     if os.path.exists(mp):
         old = json.load(open(mp))
         for k, v in old.items():
